@@ -36,7 +36,9 @@ def run(tier):
                            'generated programs with operator commands (pause, resume, stop with each state, rerun) and duplicate deliveries '
                            'issued at random points of the run; every individual state write (SQL level) and every committed state is judged; '
                            'non-trivial = distinct runs with at least one operator command or duplicate',
-                           _nontrivial)
+                           _nontrivial, strict=True,
+                           model_runs=lambda d: ec.catalogue_model_runs(d, tier, ops=1, dups=1, tag='_o1d1') +
+                           ec.catalogue_model_runs(d, tier, ops=3 if tier == 'thorough' else 2, only=('chain2', 'linear_handled', 'cmd_fail_first'), tag='_o3'))
 
 
 def replay(path):
